@@ -116,6 +116,54 @@ def run(res, replay=None):
                 jobs.append((m, img, n, script, len(mlines), len(ilines)))
                 mlines += [model_msg_line(s, m), "buf " + hx(img[:n])] + script + [c for c in cscript if c]
                 ilines += ["use " + m.name, "buf " + hx(img[:n])] + script
+        # (a') hostile (smaller) blockLength values steering the cursor accessors: the wire blockLength is untrusted
+        # input, a plain-cursor traversal of a truncated buffer must still never touch bytes at or beyond p+n silently
+        hm, hi, hjobs = [], [], []
+        for i, (m, lay, v, hdrbg) in enumerate(meta):
+            img = bytes.fromhex(eout[2 * i + 1]) if eout[2 * i + 1] != "-" else b""
+            if len(img) > 400 or not img:
+                continue
+            for (off, w, what) in c06.header_fields(lay, v):
+                if not what.endswith("blockLength"):
+                    continue
+                cur = int.from_bytes(img[off:off + w], "big" if s.big_endian else "little")
+                for val in sorted({0, cur // 2, max(0, cur - 1)}):
+                    if val == cur:
+                        continue
+                    mod = bytearray(img)
+                    mod[off:off + w] = val.to_bytes(w, "big" if s.big_endian else "little")
+                    for n in sorted({len(mod), off + w, min(len(mod), off + w + val), min(len(mod), off + w + val + 1),
+                                     min(len(mod), off + w + cur), max(0, len(mod) - 3)}):
+                        hjobs.append((m, bytes(mod[:n]), "%s=%d n=%d" % (what, val, n), len(hm), len(hi)))
+                        hm += [model_msg_line(s, m), "buf " + hx(bytes(mod[:n])), "ctrav"]
+                        hi += ["use " + m.name, "buf " + hx(bytes(mod[:n])), "ctrav"]
+        hout = model.run(hm) if hm else []
+        for (cxx, std), exe in (mc.exes.items() if hi else []):
+            rc, io2, err = run_impl(exe, hi)
+            if rc != 0 or len(io2) != len(hi):
+                found = True
+                res.violation("driver-crash", "generated driver crashed on hostile block lengths (%s %s): %s" % (cxx, std, err[-300:]),
+                              {"schema_xml": mc.xml, "stderr": err[-2000:]})
+                continue
+            for (m, b_, what, mo, io) in hjobs:
+                # a hostile <data> length can carry the cursor beyond 2^63: compare cursor values as 64-bit addresses
+                norm = lambda t: re.sub(r"c=(-?\d+)$", lambda k: "c=%d" % (int(k.group(1)) % 2 ** 64), t.strip())
+                a = norm(hout[mo + 2])
+                b2 = norm(io2[io + 2].partition(" | ")[0])
+                res.count((s.package, m.name, hx(b_)[:32], what, cxx, std), True)
+                base = {"schema_xml": mc.xml, "message": m.name, "buffer": hx(b_), "n": len(b_), "case": what,
+                        "model": a, "observed": b2, "config": [cxx, std]}
+                if "FAULT" in b2:
+                    found |= res.violation("silent-oob:ctrav-hostile-blocklength",
+                                           "cursor traversal with %s touched memory at or beyond p+%d without invoking the handler" % (what, len(b_)), base)
+                elif "ASSERT" not in b2 and (a in ("ASSERT", "OOB") or a.endswith(("ASSERT", "OOB"))):
+                    found |= res.violation("unreported-oob:ctrav-hostile-blocklength",
+                                           "cursor traversal with %s returned `%s` although the model's accessed bytes leave the buffer (%s)"
+                                           % (what, b2[-80:], a[-40:]), base)
+                elif "ASSERT" not in b2 and a != b2:
+                    found |= res.violation("value:ctrav-hostile-blocklength", "cursor traversal with %s: implementation `%s`, model `%s`"
+                                           % (what, b2[-100:], a[-100:]), base)
+                dist["assert" if "ASSERT" in b2 else "value"] += 1
         mout = model.run(mlines)
         full = {}
         for (m, img, n, script, mo, io) in jobs:
